@@ -26,5 +26,5 @@ EXPLORE = {'real': (rp.c08_cases(), rp.execute_c08)}
 
 
 def run(ctx):
-    ctx.explore('real', rp.c08_cases(), rp.execute_c08, n=ctx.pick(3, 40),
+    ctx.explore('real', rp.c08_cases(), rp.execute_c08, n=ctx.pick(4, 40),
                 shrink_budget=6, reexecute_confirm=2)
